@@ -3,6 +3,7 @@ package main
 import (
 	"fmt"
 	"go/token"
+	"go/types"
 	"strings"
 
 	"golang.org/x/tools/go/ssa"
@@ -29,7 +30,7 @@ func matchDescent(c *Ctx, rule string) {
 	remQ := P.Method("match", "branch", "removeQuery")
 	fClients := P.Field("match", "branch", "clients")
 	fChildren := P.Field("match", "branch", "children")
-	if upd == nil || addQ == nil || remQ == nil || fClients == nil || fChildren == nil || len(upd.Params) != 4 {
+	if upd == nil || addQ == nil || remQ == nil || fClients == nil || fChildren == nil || len(upd.Params) < 2 {
 		c.Unresolved(rule, "match.(*branch).update / addQuery / removeQuery / clients / children")
 		return
 	}
@@ -130,7 +131,15 @@ func matchDescent(c *Ctx, rule string) {
 		return "other:" + Expr(v)
 	}
 	pathKind := func(ev *Ev) string {
-		v := ev.Args[2].V
+		// the path operand of the recursive call: the only []string argument
+		v := ev.Args[len(ev.Args)-1].V
+		for _, a := range ev.Args {
+			if sl, ok := a.V.Type().Underlying().(*types.Slice); ok {
+				if bt, ok := sl.Elem().Underlying().(*types.Basic); ok && bt.Kind() == types.String {
+					v = a.V
+				}
+			}
+		}
 		if isNilConst(v) {
 			return "exhausted"
 		}
